@@ -1457,7 +1457,7 @@ func (g *gen) zooDescr(vs []string, odd bool) string {
 		case 11:
 			return "external(), " + g.modeAtom(n)
 		case 12:
-			return "temporal()"
+			return "internal:maybe_temporal()"
 		case 13:
 			return "reflects(" + g.r0([]string{"/x", "/a", "/foo/bar"}) + ")"
 		case 14:
@@ -1486,7 +1486,7 @@ func (g *gen) zooDescr(vs []string, odd bool) string {
 		"merge(\"m\")", "merge([" + v(0) + "])", "merge([" + v(0) + "], /m)", "merge([" + v(0) + "], X)", "merge()", "merge([" + v(0) + "], 1)", "merge(" + v(0) + ", \"m\")",
 		"fundep([" + v(0) + "], [" + v(1) + "]), merge([" + v(1) + "], \"nosuch\")", "fundep([" + v(0) + "], [" + v(1) + "]), merge([Q], \"" + g.pickPred().name + "\")",
 		"fundep([" + v(0) + "], [" + v(1) + "]), merge(\"m\")", "fundep([" + v(0) + "], [" + v(1) + "]), merge([" + v(1) + "], b\"m\")",
-		"synthetic(1)", "synthetic(X)", "synthetic(), synthetic()", "desugared(X)", "desugared(), synthetic()", "temporal(1)", "temporal(), temporal()",
+		"synthetic(1)", "synthetic(X)", "synthetic(), synthetic()", "desugared(X)", "desugared(), synthetic()",
 		"name()", "name(X)", "name(1)", "name(/a)", "internal:maybe_temporal()", "extensional(X)", "private(1)",
 	})
 }
